@@ -314,12 +314,17 @@ func otLayoutDeleteGlyphsInplace(buffer *Buffer, filter func(*GlyphInfo) bool) {
 
 			cluster := info[i].Cluster
 			if i+1 < len(buffer.Info) && cluster == info[i+1].Cluster {
-				/* Cluster survives; do nothing. */
+				/* Cluster survives; it keeps the glyph flags of the deleted glyph
+				 * (they are only propagated to the whole cluster at the very end). */
+				info[i+1].Mask |= info[i].Mask & glyphFlagDefined
 				continue
 			}
 
 			if j != 0 {
 				/* Merge cluster backward. */
+				if cluster == info[j-1].Cluster {
+					info[j-1].Mask |= info[i].Mask & glyphFlagDefined
+				}
 				if cluster < info[j-1].Cluster {
 					mask := info[i].Mask
 					oldCluster := info[j-1].Cluster
